@@ -1,3 +1,4 @@
+import datetime
 from abc import abstractmethod
 from typing import Callable, Any, Iterable
 
@@ -40,7 +41,10 @@ def sorter_for(sort,  # type: Sort
                ):  # type (...) -> Sorter
 
     path_ranking = lambda x: x.original_location + str(x.deletion_date)
-    date_rankking = lambda x: x.deletion_date
+    # entries without a (valid) DeletionDate have deletion_date None, which
+    # cannot be compared with a datetime: list them first
+    date_rankking = lambda x: (x.deletion_date is not None,
+                               x.deletion_date or datetime.datetime.min)
     return {
         Sort.ByPath: SortFunction(path_ranking),
         Sort.ByDate: SortFunction(date_rankking),
